@@ -33,7 +33,7 @@ RULE = ("seeded schedules: list of (stream, burst, yields) steps over N=15..60 i
 B = 1000
 REQUIRED_BUCKETS = ["kind:flat", "kind:composed", "kind:3phase", "kind:fallback-term", "different-first-timestamps", "reader-late",
                     "reader-before-data", "burst>=20", "second-reader", "lagging-stream>=20",
-                    "stream-seconds-behind-the-others"]
+                    "stream-seconds-behind-the-others", "streams-stamped-in-different-time-zones"]
 REQUIRED_COUNTERS = ["outputs_decoded", "schedules_run"]
 ASSUMPTIONS = ["all streams carry one sample per index (missing values are C13/C19)"]
 
@@ -84,7 +84,7 @@ def gen(rng: Any, tier: str, i: int) -> Any:
         # (stream, burst, loop yields, seconds of virtual time that pass before the next delivery)
         steps.append([rng.randrange(n), rng.choice([1, 1, 1, 5, 20, 35]), rng.choice([0, 0, 1, 5]),
                       rng.choice([0.0] * 12 + [0.5, 6.0, 40.0])])
-    return {"kind": kind, "n": n, "groups": groups, "first": first, "N": N, "steps": steps,
+    return {"tzmix": rng.random() < 0.25, "kind": kind, "n": n, "groups": groups, "first": first, "N": N, "steps": steps,
             "reader_at": rng.choice([0, 0, 3, 10, 50]), "second_reader_at": rng.choice([None, 20, 60, 150])}
 
 
@@ -116,6 +116,15 @@ async def _drive(case: dict[str, Any], out: dict[str, Any]) -> None:
     else:
         eng = FormulaEngine3Phase("3p", Quantity, (subs[0], subs[1], subs[2]))
     senders = [c.new_sender() for c in chans]
+    from datetime import timezone as _tz
+
+    zones = [_tz(timedelta(minutes=m)) for m in (0, 330, -210, 345)]
+
+    def _stamp(i: int, k: int) -> Any:
+        ts = fm.T0 + timedelta(seconds=k)
+        # the same instant, written in a different zone on every stream (aware datetimes denote instants)
+        return ts.astimezone(zones[i % 4]) if case.get("tzmix") else ts
+
     nxt = list(case["first"])
     rx = None
     rx2 = None
@@ -142,7 +151,7 @@ async def _drive(case: dict[str, Any], out: dict[str, Any]) -> None:
             if rx is None and case["kind"] != "flat" and nxt[i] - case["first"][i] >= 44:
                 break  # (the not yet started outer engine's internal receivers hold 50 samples)
             k = nxt[i]
-            await senders[i].send(Sample(fm.T0 + timedelta(seconds=k), Quantity(float((k + 1) * B ** i))))
+            await senders[i].send(Sample(_stamp(i, k), Quantity(float((k + 1) * B ** i))))
             nxt[i] += 1
             sent += 1
         max_burst = max(max_burst, sent)
@@ -164,7 +173,7 @@ async def _drive(case: dict[str, Any], out: dict[str, Any]) -> None:
         for i in range(n):
             while nxt[i] < N and len(in_rx[i]._q) < 45:  # noqa: SLF001
                 k = nxt[i]
-                await senders[i].send(Sample(fm.T0 + timedelta(seconds=k), Quantity(float((k + 1) * B ** i))))
+                await senders[i].send(Sample(_stamp(i, k), Quantity(float((k + 1) * B ** i))))
                 nxt[i] += 1
     await asyncio.sleep(0.05)
     out["sent_all"] = min(nxt) >= N
@@ -199,6 +208,8 @@ def check(case: dict[str, Any], rec: Any) -> None:
     n, N, first = case["n"], case["N"], case["first"]
     if len(set(first)) > 1:
         rec.bucket("different-first-timestamps")
+    if case.get("tzmix") and n > 1:
+        rec.bucket("streams-stamped-in-different-time-zones")
     out: dict[str, Any] = {}
     mon = LoopMonitor()
     run_virtual(lambda: _drive(case, out), monitor=mon)
